@@ -224,8 +224,8 @@ where
         let (target, starts, tname) = (&tg[ti].0, &tg[ti].1, tg[ti].2);
         let rt = gt_ref(target);
         let start = &starts[si];
-        let bound = if eps >= 10.0 { ctx.tier.pick(2, 3) } else { ctx.tier.pick(1, 2) };
-        let res = explore(bound, ctx.tier.pick(600, 20000), |prefix| {
+        let bound = if eps >= 10.0 { 2 } else { ctx.tier.pick(1, 2) };
+        let res = explore(bound, ctx.tier.pick(600, 5000), |prefix| {
             let mut chain = chain_with_eps::<T, B>(target.clone(), start, eps);
             let (r, rec) = record_with(Script { prefix: prefix.to_vec(), momenta: moms2.clone(), f32_scalar: f32b, inject: true, keep: Some(&["nuts.end", "nuts.leaf"]), max_leaves: 1 << 12, init_momentum: None }, || chain.step());
             let case = json!({"sampler": "NUTS", "backend": name, "target": tname, "start": start, "eps": jf(eps), "script": prefix});
